@@ -129,32 +129,58 @@ Section RunThm.
   Hypothesis Hsingle : forall c, (length (bases c) <= 1)%nat.
   Hypothesis Hrank : forall c p, In p (bases c) -> (rank p < rank c)%nat.
   Hypothesis Hfuel : forall c, (rank c < fuel)%nat.
-  Variable render : N -> option str -> tyobj -> prog.
+  (* the regenerated inventories and the premises about them *)
+  Variable sites : list site.
+  Variable stores : list store.
+  Variable rfacts : bool.
+  Hypothesis Hsites : forallb site_ok sites = true.                 (* every memoisation site is keyed by identity/value, values unmodified *)
+  Hypothesis Hstores : forallb (store_ok rfacts) stores = true.     (* every render-phase store is reset per file / per call / a memo *)
+  Variable render : ambient -> N -> option str -> tyobj -> prog.
+  (* NAMED PREMISE: which program a template is does not depend on the process state -- rendering consults the process only
+     through unique names, memoised callables and inventoried long-lived attributes (the operations of `prog`) *)
+  Hypothesis render_pure : forall (a1 a2 : ambient) cf tmpl o, render a1 cf tmpl o = render a2 cf tmpl o.
   Variable cfun : ckey -> str.
   Variable maxsize : option nat.
 
-  (* the program run without any memo table *)
+  Definition amb0 : ambient := (UniqueNameGenerator_init, [], [], [], []).
+
+  Lemma memo_proj_id i k : memo_proj sites i k = k.
+  Proof.
+    unfold memo_proj. destruct (nth_error sites i) as [st|] eqn:E; [|reflexivity].
+    rewrite forallb_forall in Hsites. rewrite (Hsites st (nth_error_In _ _ E)). reflexivity.
+  Qed.
+
+  Lemma stores_no_leak : stores_leak rfacts stores = false.
+  Proof. unfold stores_leak. rewrite Hstores. reflexivity. Qed.
+
+  (* the program run without any memo table, seeing nothing of earlier files *)
   Fixpoint prog_out (self : N) (p : prog) (u : UniqueNameGenerator_state) : UniqueNameGenerator_state * list str :=
     match p with
     | PDone => (u, [])
     | PEmit s k => let '(u', out) := prog_out self k u in (u', s :: out)
     | PUniq key base pre suf k =>
         let '(u1, name) := UniqueNameGenerator_call u key base pre suf in prog_out self (k name) u1
-    | PMemo q k => prog_out self (k (cfun (self, q))) u
+    | PMemo i q k => prog_out self (k (cfun (self, q))) u
+    | PPeek k => prog_out self (k []) u
     end.
+
+  Notation run_prog := (run_prog sites cfun maxsize).
 
   Lemma run_prog_transparent self p : forall u c,
     cache_ok cfun c ->
-    (fst (fst (run_prog cfun maxsize self p u c)), snd (run_prog cfun maxsize self p u c)) = prog_out self p u /\
-    cache_ok cfun (snd (fst (run_prog cfun maxsize self p u c))).
+    (fst (fst (run_prog [] self p u c)), snd (run_prog [] self p u c)) = prog_out self p u /\
+    cache_ok cfun (snd (fst (run_prog [] self p u c))).
   Proof.
-    induction p as [|s k IH|key base pre suf k IH|q k IH]; intros u c Hc; cbn [run_prog prog_out].
+    induction p as [|s k IH|key base pre suf k IH|i q k IH|k IH]; intros u c Hc; cbn [GenState.run_prog prog_out].
     - split; [reflexivity|exact Hc].
-    - destruct (IH u c Hc) as [H1 H2]. destruct (run_prog cfun maxsize self k u c) as [[u' c'] out].
+    - destruct (IH u c Hc) as [H1 H2]. destruct (run_prog [] self k u c) as [[u' c'] out].
       cbn [fst snd] in *. rewrite <- H1. split; [reflexivity|exact H2].
     - destruct (UniqueNameGenerator_call u key base pre suf) as [u1 name]. apply IH, Hc.
-    - destruct (lru_call_transparent cfun maxsize c (self, q) Hc) as [Hv Hc'].
+    - assert (Hp : proj_call (memo_proj sites i) cfun maxsize c (self, q) = lru_call cfun maxsize c (self, q)).
+      { unfold proj_call, lru_call. rewrite memo_proj_id. reflexivity. }
+      rewrite Hp. destruct (lru_call_transparent cfun maxsize c (self, q) Hc) as [Hv Hc'].
       destruct (lru_call cfun maxsize c (self, q)) as [c1 v]. cbn [fst snd] in *. subst v. apply IH, Hc'.
+    - apply IH, Hc.
   Qed.
 
   (* ---- template selection: the template is the one of the nearest class of the inheritance chain that has one in the
@@ -177,11 +203,11 @@ Section RunThm.
 
   Variable lel_shared : bool.
 
-  Notation gen_file := (gen_file bases cname fuel render cfun maxsize true lel_shared).
-  Notation alone := (alone bases cname fuel render cfun maxsize true lel_shared).
+  Notation gen_file := (gen_file bases cname fuel sites stores rfacts render cfun maxsize true lel_shared).
+  Notation alone := (alone bases cname fuel sites stores rfacts render cfun maxsize true lel_shared).
 
   Definition pure_chunks (cf : N) (tmpl : option str) (o : tyobj) : list str :=
-    snd (prog_out cf (render cf tmpl o) UniqueNameGenerator_init).
+    snd (prog_out cf (render amb0 cf tmpl o) UniqueNameGenerator_init).
 
   (* what a file must be: selected template and text as a function of (configuration, listing, type object, processors) *)
   Definition file_spec (cf : N) (ts : list (str * str)) (ps : list pp) (o : tyobj) : list pp * (option str * str) :=
@@ -192,17 +218,18 @@ Section RunThm.
   (* with reset() in place the file, the template chosen for it and the processor state after it are a function of
      (configuration, template listing, type object, processor state before) -- not of the unique-name state, not of the
      memo tables, not of the loader memo *)
-  Lemma gen_file_spec cf ts memo u c ps o :
+  Lemma gen_file_spec cf ts memo u c ps sc o :
     cache_ok cfun c -> memo_ok ts memo ->
-    let r := gen_file cf ts memo u c ps o in
+    let r := gen_file cf ts memo u c ps sc o in
     memo_ok ts (fst (fst (fst (fst r)))) /\ cache_ok cfun (snd (fst (fst r))) /\
     (snd (fst r), snd r) = file_spec cf ts ps o.
   Proof.
     intros Hc Hm. unfold GenState.gen_file, file_spec, pure_chunks.
     destruct (select_transparent ts memo (obj_cls o) Hm) as [Hs Hm1].
     destruct (select bases cname fuel ts memo (obj_cls o)) as [memo1 tmpl]. cbn [fst snd] in Hs, Hm1. subst tmpl.
-    destruct (run_prog_transparent cf (render cf (spec_select ts (obj_cls o)) o) UniqueNameGenerator_init c Hc) as [H1 H2].
-    destruct (run_prog cfun maxsize cf (render cf (spec_select ts (obj_cls o)) o) UniqueNameGenerator_init c) as [[u1 c1] chunks].
+    rewrite stores_no_leak. rewrite (render_pure (u, c, memo, ps, sc) amb0).
+    destruct (run_prog_transparent cf (render amb0 cf (spec_select ts (obj_cls o)) o) UniqueNameGenerator_init c Hc) as [H1 H2].
+    destruct (run_prog [] cf (render amb0 cf (spec_select ts (obj_cls o)) o) UniqueNameGenerator_init c) as [[u1 c1] chunks].
     cbn [fst snd] in *. rewrite <- H1. cbn [snd].
     destruct (write_file (if lel_shared then ps else map pp_fresh ps) chunks) as [ps1 text]. cbn [fst snd].
     split; [exact Hm1|]. split; [exact H2|reflexivity].
@@ -211,7 +238,7 @@ Section RunThm.
   Lemma alone_spec cf ts pps0 o : alone cf ts pps0 o = snd (file_spec cf ts pps0 o).
   Proof.
     unfold GenState.alone.
-    destruct (gen_file_spec cf ts [] UniqueNameGenerator_init [] pps0 o (Forall_nil _) (LookupThm.consistent_nil _ _)) as (_ & _ & H).
+    destruct (gen_file_spec cf ts [] UniqueNameGenerator_init [] pps0 [] o (Forall_nil _) (LookupThm.consistent_nil _ _)) as (_ & _ & H).
     rewrite <- H. reflexivity.
   Qed.
 
@@ -246,21 +273,21 @@ Section RunThm.
     e_tmpl e = spec_select (e_tset e) (obj_cls (e_obj e)) /\
     ((lel_shared = false \/ e_clean e = true) -> (e_tmpl e, e_text e) = alone (e_cfg e) (e_tset e) (e_pps0 e) (e_obj e)).
 
-  Notation run_types := (run_types U bases cname fuel render cfun maxsize true lel_shared).
+  Notation run_types := (run_types U bases cname fuel sites stores rfacts render cfun maxsize true lel_shared).
 
-  Lemma run_types_ok cf ts ins order : forall memo u c ps,
+  Lemma run_types_ok cf ts ins order : forall memo u c ps sc,
     cache_ok cfun c -> memo_ok ts memo ->
-    let r := run_types cf ts ins memo u c ps order in
-    memo_ok ts (fst (fst (fst (fst r)))) /\ cache_ok cfun (snd (fst (fst r))) /\ Forall entry_ok (snd r).
+    let r := run_types cf ts ins memo u c ps sc order in
+    memo_ok ts (fst (fst (fst (fst (fst r))))) /\ cache_ok cfun (snd (fst (fst (fst r)))) /\ Forall entry_ok (snd r).
   Proof.
-    induction order as [|k order IH]; intros memo u c ps Hc Hm; cbn [GenState.run_types].
+    induction order as [|k order IH]; intros memo u c ps sc Hc Hm; cbn [GenState.run_types].
     - cbn [fst snd]. repeat split; [exact Hm|exact Hc|constructor].
     - destruct (resolve_in U ins k) as [o|] eqn:Hr; [|apply IH; assumption].
-      pose proof (gen_file_spec cf ts memo u c ps o Hc Hm) as Hg. cbv zeta in Hg.
-      destruct (gen_file cf ts memo u c ps o) as [[[[m1 u1] c1] ps1] res]. cbn [fst snd] in Hg.
+      pose proof (gen_file_spec cf ts memo u c ps sc o Hc Hm) as Hg. cbv zeta in Hg.
+      destruct (gen_file cf ts memo u c ps sc o) as [[[[m1 u1] c1] ps1] res]. cbn [fst snd] in Hg.
       destruct Hg as (Hm1 & Hc1 & Hw).
-      pose proof (IH m1 u1 c1 ps1 Hc1 Hm1) as Hi. cbv zeta in Hi.
-      destruct (run_types cf ts ins m1 u1 c1 ps1 order) as [[[[m2 u2] c2] ps2] es]. cbn [fst snd] in *.
+      pose proof (IH m1 u1 c1 ps1 (sc ++ [k]) Hc1 Hm1) as Hi. cbv zeta in Hi.
+      destruct (run_types cf ts ins m1 u1 c1 ps1 (sc ++ [k]) order) as [[[[[m2 u2] c2] ps2] sc2] es]. cbn [fst snd] in *.
       destruct Hi as (Hm2 & Hc2 & Hes).
       split; [exact Hm2|]. split; [exact Hc2|]. constructor; [|exact Hes].
       assert (Hres : res = snd (file_spec cf ts ps o)) by (rewrite <- Hw; reflexivity).
@@ -279,8 +306,8 @@ Section RunThm.
     apply IH. exact (proj2 (select_transparent ts memo (obj_cls o) Hm)).
   Qed.
 
-  Notation op_step := (op_step U bases cname fuel render cfun maxsize true lel_shared).
-  Notation exec := (exec U bases cname fuel render cfun maxsize true lel_shared).
+  Notation op_step := (op_step U bases cname fuel sites stores rfacts render cfun maxsize true lel_shared).
+  Notation exec := (exec U bases cname fuel sites stores rfacts render cfun maxsize true lel_shared).
 
   (* invariant of the process state: the function memo and every generator's loader memo only hold true entries *)
   Definition pstate_ok (s : pstate) : Prop :=
@@ -303,10 +330,12 @@ Section RunThm.
       destruct dry.
       { cbn [fst snd]. split; [|constructor]. split; cbn [p_cache p_gens]; [exact Hc|].
         apply set_nth_Forall; [exact Hg|]. cbn [go_tset go_memo]. apply dry_types_ok, Hmg. }
-      pose proof (run_types_ok (ecfg (go_cfg g) args) (go_tset g) (go_inputs g) order (go_memo g) (p_uniq s) (p_cache s) (go_pps g) Hc Hmg) as Hr.
+      pose proof (run_types_ok (ecfg (go_cfg g) args) (go_tset g) (go_inputs g) order (go_memo g) (p_uniq s) (p_cache s) (go_pps g)
+                               (p_scratch s) Hc Hmg) as Hr.
       cbv zeta in Hr.
-      destruct (run_types (ecfg (go_cfg g) args) (go_tset g) (go_inputs g) (go_memo g) (p_uniq s) (p_cache s) (go_pps g) order)
-        as [[[[m1 u1] c1] ps1] es]. cbn [fst snd] in *. destruct Hr as (H1 & H2 & H3).
+      destruct (run_types (ecfg (go_cfg g) args) (go_tset g) (go_inputs g) (go_memo g) (p_uniq s) (p_cache s) (go_pps g)
+                          (p_scratch s) order)
+        as [[[[[m1 u1] c1] ps1] sc1] es]. cbn [fst snd] in *. destruct Hr as (H1 & H2 & H3).
       split; [|exact H3]. split; cbn [p_cache p_gens]; [exact H2|].
       apply set_nth_Forall; [exact Hg|]. cbn [go_tset go_memo]. exact H1.
     - split; [|constructor]. split; cbn [p_cache p_gens]; [constructor|exact Hg].
@@ -320,7 +349,7 @@ Section RunThm.
     apply Forall_app. split; assumption.
   Qed.
 
-  Theorem log_entries_ok h : Forall entry_ok (log U bases cname fuel render cfun maxsize true lel_shared h).
+  Theorem log_entries_ok h : Forall entry_ok (log U bases cname fuel sites stores rfacts render cfun maxsize true lel_shared h).
   Proof. unfold log. apply exec_ok. split; constructor. Qed.
 End RunThm.
 
@@ -353,6 +382,27 @@ Proof.
 Qed.
 
 (* ================= per-type independence ================= *)
+(* resolve is monotone in the input set: whatever a dependency-closed subset resolves, the larger set resolves to the same object *)
+Lemma map_opt_mono {A B} (f g : A -> option B) l : forall r,
+  (forall a b, In a l -> f a = Some b -> g a = Some b) -> map_opt f l = Some r -> map_opt g l = Some r.
+Proof.
+  induction l as [|a l IH]; cbn [map_opt]; intros r H Hr; [exact Hr|].
+  destruct (f a) as [b|] eqn:Ef; [|discriminate]. destruct (map_opt f l) as [bs|] eqn:El; [|discriminate].
+  rewrite (H a b (or_introl eq_refl) Ef), (IH bs (fun a' b' Hin => H a' b' (or_intror Hin)) eq_refl). exact Hr.
+Qed.
+
+Lemma str_in_incl k (I2 I1 : list (list N)) : incl I2 I1 -> str_in k I2 = true -> str_in k I1 = true.
+Proof. intros Hi H. apply str_in_spec. apply Hi. apply str_in_spec. exact H. Qed.
+
+Lemma resolve_mono U (I2 I1 : list (list N)) : incl I2 I1 -> forall f k o, resolve f U I2 k = Some o -> resolve f U I1 k = Some o.
+Proof.
+  intros Hi. induction f as [|f IH]; intros k o H; [discriminate|]. cbn [resolve] in *.
+  destruct (str_in k I2) eqn:E2; [|discriminate]. rewrite (str_in_incl k I2 I1 Hi E2).
+  destruct (dict_get U k) as [d|]; [|discriminate].
+  destruct (map_opt (resolve f U I2) (d_deps d)) as [os|] eqn:Em; [|discriminate].
+  rewrite (map_opt_mono (resolve f U I2) (resolve f U I1) (d_deps d) os (fun a b _ Ha => IH a b Ha) Em). exact H.
+Qed.
+
 Section Indep.
   Variable U : universe.
   Variable bases : N -> list N.
@@ -362,47 +412,57 @@ Section Indep.
   Hypothesis Hsingle : forall c, (length (bases c) <= 1)%nat.
   Hypothesis Hrank : forall c p, In p (bases c) -> (rank p < rank c)%nat.
   Hypothesis Hfuel : forall c, (rank c < fuel)%nat.
-  Variable render : N -> option str -> tyobj -> prog.
+  Variable sites : list site.
+  Variable stores : list store.
+  Variable rfacts : bool.
+  Hypothesis Hsites : forallb site_ok sites = true.
+  Hypothesis Hstores : forallb (store_ok rfacts) stores = true.
+  Variable render : ambient -> N -> option str -> tyobj -> prog.
+  Hypothesis render_pure : forall (a1 a2 : ambient) cf tmpl o, render a1 cf tmpl o = render a2 cf tmpl o.
   Variable cfun : ckey -> str.
 
+  Notation log := (log U bases cname fuel sites stores rfacts render cfun).
+  Notation entries_ok := (log_entries_ok U bases cname fuel rank Hsingle Hrank Hfuel sites stores rfacts Hsites Hstores render render_pure cfun).
+
   Theorem file_indep_lemma (lel_shared : bool) (m1 m2 : option nat) (h1 h2 : list op) (e1 e2 : entry) :
-    In e1 (log U bases cname fuel render cfun m1 true lel_shared h1) ->
-    In e2 (log U bases cname fuel render cfun m2 true lel_shared h2) ->
+    In e1 (log m1 true lel_shared h1) ->
+    In e2 (log m2 true lel_shared h2) ->
     e_cfg e1 = e_cfg e2 -> e_tset e1 = e_tset e2 -> e_pps0 e1 = e_pps0 e2 -> e_key e1 = e_key e2 ->
     (lel_shared = false \/ (e_clean e1 = true /\ e_clean e2 = true)) ->
     e_tmpl e1 = e_tmpl e2 /\ e_text e1 = e_text e2.
   Proof.
     intros H1 H2 Hc Ht Hp Hk Hside.
-    pose proof (log_entries_ok U bases cname fuel rank Hsingle Hrank Hfuel render cfun m1 lel_shared h1) as F1.
-    pose proof (log_entries_ok U bases cname fuel rank Hsingle Hrank Hfuel render cfun m2 lel_shared h2) as F2.
+    pose proof (entries_ok m1 lel_shared h1) as F1.
+    pose proof (entries_ok m2 lel_shared h2) as F2.
     rewrite Forall_forall in F1, F2. destruct (F1 e1 H1) as ([i1 R1] & _ & A1). destruct (F2 e2 H2) as ([i2 R2] & _ & A2).
     rewrite Hk in R1. pose proof (resolve_indep_lemma U _ _ _ _ _ _ _ R1 R2) as Ho.
     assert (E : (e_tmpl e1, e_text e1) = (e_tmpl e2, e_text e2)).
     { rewrite A1, A2 by (destruct Hside as [?|[? ?]]; auto).
-      rewrite !(alone_spec bases cname fuel rank Hsingle Hrank Hfuel), Hc, Ht, Hp, Ho. reflexivity. }
+      rewrite !(alone_spec bases cname fuel rank Hsingle Hrank Hfuel sites stores rfacts Hsites Hstores render render_pure), Hc, Ht, Hp, Ho.
+      reflexivity. }
     injection E as E1 E2. split; assumption.
   Qed.
 
   (* the template chosen for a file is a function of (class of the type, template listing) in every history *)
   Theorem template_selection_lemma (lel_shared : bool) (m : option nat) (h : list op) (e : entry) :
-    In e (log U bases cname fuel render cfun m true lel_shared h) ->
+    In e (log m true lel_shared h) ->
     e_tmpl e = spec_select bases cname rank (e_tset e) (obj_cls (e_obj e)).
   Proof.
-    intros H.
-    pose proof (log_entries_ok U bases cname fuel rank Hsingle Hrank Hfuel render cfun m lel_shared h) as F.
+    intros H. pose proof (entries_ok m lel_shared h) as F.
     rewrite Forall_forall in F. exact (proj1 (proj2 (F e H))).
   Qed.
+
 End Indep.
 
 (* ================= dry runs ================= *)
 (* generate_all(is_dryrun=True) writes nothing and leaves the unique-name generator, the memo tables and every line processor
    as they were (only the loader memo of that generator may grow -- which template_selection_lemma shows to be unobservable) *)
-Lemma dry_run_lemma U bases cname fuel render cfun maxsize resets lel s gid args order :
-  let r := op_step U bases cname fuel render cfun maxsize resets lel s (ORun gid args true order) in
-  snd r = [] /\ p_uniq (fst r) = p_uniq s /\ p_cache (fst r) = p_cache s /\
+Lemma dry_run_lemma U bases cname fuel sites stores rfacts render cfun maxsize resets lel s gid args order :
+  let r := op_step U bases cname fuel sites stores rfacts render cfun maxsize resets lel s (ORun gid args true order) in
+  snd r = [] /\ p_uniq (fst r) = p_uniq s /\ p_cache (fst r) = p_cache s /\ p_scratch (fst r) = p_scratch s /\
   map go_pps (p_gens (fst r)) = map go_pps (p_gens s).
 Proof.
-  cbn [op_step]. destruct (nth_error (p_gens s) gid) as [g|] eqn:E; cbn [fst snd p_uniq p_cache p_gens]; repeat split; try reflexivity.
+  cbn [op_step]. destruct (nth_error (p_gens s) gid) as [g|] eqn:E; cbn [fst snd p_uniq p_cache p_gens p_scratch]; repeat split; try reflexivity.
   revert gid E. induction (p_gens s) as [|x l IH]; intros [|n] E; cbn [nth_error] in E; try discriminate; cbn [set_nth map].
   - injection E as ->. reflexivity.
   - f_equal. apply IH, E.
@@ -450,15 +510,17 @@ Proof. vm_compute. split; reflexivity. Qed.
 
 (* the unrestricted statement is false of the model of the code as it is *)
 Theorem lel_leak_refuted_lemma :
-  exists (U : universe) (render : N -> option str -> tyobj -> prog) (cfun : ckey -> str) (h1 h2 : list op) (e1 e2 : entry),
-    In e1 (log U (ct_bases w_ct) (ct_name w_ct) 4 render cfun None true true h1) /\
-    In e2 (log U (ct_bases w_ct) (ct_name w_ct) 4 render cfun None true true h2) /\
+  exists (U : universe) (render : ambient -> N -> option str -> tyobj -> prog) (cfun : ckey -> str) (h1 h2 : list op) (e1 e2 : entry),
+    (forall a1 a2 cf t o, render a1 cf t o = render a2 cf t o) /\
+    In e1 (log U (ct_bases w_ct) (ct_name w_ct) 4 [] [] true render cfun None true true h1) /\
+    In e2 (log U (ct_bases w_ct) (ct_name w_ct) 4 [] [] true render cfun None true true h2) /\
     e_cfg e1 = e_cfg e2 /\ e_tset e1 = e_tset e2 /\ e_pps0 e1 = e_pps0 e2 /\ e_key e1 = e_key e2 /\ e_text e1 <> e_text e2.
 Proof.
   exists w_U, (table_render false w_tab), table_cfun, w_hist_whole, w_hist_subset.
   pose (d := {| e_cfg := 0; e_tset := []; e_pps0 := []; e_key := []; e_obj := TyObj [] 0 [] []; e_tmpl := None;
                 e_clean := true; e_text := [] |}).
-  exists (nth 1 (log w_U (ct_bases w_ct) (ct_name w_ct) 4 (table_render false w_tab) table_cfun None true true w_hist_whole) d).
-  exists (nth 0 (log w_U (ct_bases w_ct) (ct_name w_ct) 4 (table_render false w_tab) table_cfun None true true w_hist_subset) d).
+  exists (nth 1 (log w_U (ct_bases w_ct) (ct_name w_ct) 4 [] [] true (table_render false w_tab) table_cfun None true true w_hist_whole) d).
+  exists (nth 0 (log w_U (ct_bases w_ct) (ct_name w_ct) 4 [] [] true (table_render false w_tab) table_cfun None true true w_hist_subset) d).
+  split; [reflexivity|].
   vm_compute. repeat split; try (right; left; reflexivity); try (left; reflexivity). discriminate.
 Qed.
